@@ -12,7 +12,7 @@ from vlib import Infra, Violation, log
 MANIFEST = {
     "engine": "tlc+go-harness", "design_ref": "DESIGN.md section 4 (C08)",
     "technique": "TLA+ mechanism model CLRewards.tla (growth-outside flipping) model-checked exhaustively with claimable = earned; recorded histories validated by TLC against exact-rational accrual oracles: spread rewards from the curve walker, incentives from per-record emission over time credited pro rata to the in-range liquidity",
-    "text": "Design level: CLRewards.tla adds the accumulator mechanism to CL.tla; TLC proves claimable + paid = earned (sum of growth x liquidity while in range) for every interleaving of creates (before/after crossings, every tick/price relation), accruals, crossings both ways, claims, partial and full withdrawals on a bounded grid, and that closed positions were paid exactly what they earned. Code level, spread rewards: for every executed swap of recorded histories the exact curve walker yields fee and active liquidity per bucket; ghost E[id] accumulates fee*liq_id/liq_active; after every operation claimable + collected of every position (open or closed) must lie in [E(1-1e-12) - D - 2n - 2, E(1+1e-12) + 2n + 2] with D the accumulated truncation of per-unit growth (liq x accumulator ulp, both sides of the scaling migration) and n the touching events, and equal 0 when E = 0 (never in range). Code level, incentives (exact ideal-accrual oracle, rationals over BigNum): between two logged events the pool is constant, so over every interval [prev.t, t] each live incentive record (denom, rate, start, ideal remainder taken from the CreateIncentive call) emits min(rate x overlap of the interval with [start, inf), remainder) if the active liquidity is >= 1 (otherwise nothing is emitted and the record keeps its remainder) and every position in range ideally accrues emitted x liq / active liquidity (ghost ia[id][denom]); a position younger than the denom's uptime that collects, is withdrawn from or added to forfeits what it ideally accrued since its last settlement, which is ideally re-distributed pro rata over the liquidity active after the operation (paid to the owner only if none is). After every operation, for every position (open or closed) and incentive denom: claimable + forfeitable + everything that ever left the position must lie in [ia - dust, ia + u]; dust is derived from the code's truncations: (liq x accumulator ulp + 1e-18) per live record at every persisted accumulator update while in range and once more for the pending update of the claimable query, 1 token per settlement and 1 for the query, and per re-distribution received liq x ulp plus the forfeiting position's own dust x liq/L'; u is 1e-18 per record and update (truncated rate x elapsed defers emission). ia = 0 => exactly nothing; positions with the same range and join time whose ideal accruals are proportional to liquidity have proportional real ones (identical to the unit for equal liquidity before any settlement); a settlement pays the owner exactly what was claimable, unmatured amounts only when no other liquidity is active; incentive account = deposited - paid and claimable + forfeitable + paid + undistributed <= deposited. Each incentive denom is bound to one uptime per history; positions younger than it can claim/collect none of it, never-in-range positions have none, and incentive account - (claimable + forfeitable + undistributed) stays within accumulated truncation dust (this found that MsgCollectIncentives dropped forfeited incentives; fixed). The histories are validated with the emission rule of the property (TraceCLRewards.cfg, StartClip = TRUE); if a requirement of the incentive oracle is rejected, everything is validated again with the one rule the code is known to deviate by (TraceCLRewardsKnown.cfg; finding 'incentive:emits-for-time-before-start': the first accumulator update after a record's start time emits for the whole time since the previous update, never for time before the record was created): whatever is rejected under that rule too is a violation, otherwise the known deviation is reported as that finding. Non-vacuity: the run is undecided unless the histories contain incentives created after time passed without a liquidity update followed by a joiner, future starts, several records per denom with different starts, exhausted records, intervals without active liquidity, sub-second intervals, young positions forfeiting by collect / withdraw / add with and without other active liquidity, accruing twins and k-multiples.",
+    "text": "Design level: CLRewards.tla adds the accumulator mechanism to CL.tla; TLC proves claimable + paid = earned (sum of growth x liquidity while in range) for every interleaving of creates (before/after crossings, every tick/price relation), accruals, crossings both ways, claims, partial and full withdrawals on a bounded grid, and that closed positions were paid exactly what they earned. Code level, spread rewards: for every executed swap of recorded histories the exact curve walker yields fee and active liquidity per bucket; ghost E[id] accumulates fee*liq_id/liq_active; after every operation claimable + collected of every position (open or closed) must lie in [E(1-1e-12) - D - 2n - 2, E(1+1e-12) + 2n + 2] with D the accumulated truncation of per-unit growth (liq x accumulator ulp, both sides of the scaling migration) and n the touching events, and equal 0 when E = 0 (never in range). Code level, incentives (exact ideal-accrual oracle, rationals over BigNum): between two logged events the pool is constant, so over every interval [prev.t, t] each live incentive record (denom, rate, start, ideal remainder taken from the CreateIncentive call) emits min(rate x overlap of the interval with [start, inf), remainder) if the active liquidity is >= 1 (otherwise nothing is emitted and the record keeps its remainder) and every position in range ideally accrues emitted x liq / active liquidity (ghost ia[id][denom]); a position younger than the denom's uptime that collects, is withdrawn from or added to forfeits what it ideally accrued since its last settlement, which is ideally re-distributed pro rata over the liquidity active after the operation (paid to the owner only if none is). After every operation, for every position (open or closed) and incentive denom: claimable + forfeitable + everything that ever left the position must lie in [ia - dust, ia + u]; dust is derived from the code's truncations: (liq x accumulator ulp + 1e-18) per live record at every persisted accumulator update while in range and once more for the pending update of the claimable query, 1 token per settlement and 1 for the query, and per re-distribution received liq x ulp plus the forfeiting position's own dust x liq/L'; u is 1e-18 per record and update (truncated rate x elapsed defers emission). ia = 0 => exactly nothing; positions with the same range and join time whose ideal accruals are proportional to liquidity have proportional real ones (identical to the unit for equal liquidity before any settlement); a settlement pays the owner exactly what was claimable, unmatured amounts only when no other liquidity is active; incentive account = deposited - paid and claimable + forfeitable + paid + undistributed <= deposited. Each incentive denom is bound to one uptime per history; positions younger than it can claim/collect none of it, never-in-range positions have none, and incentive account - (claimable + forfeitable + undistributed) stays within accumulated truncation dust (this found that MsgCollectIncentives dropped forfeited incentives; fixed). The histories are validated with the emission rule of the property (TraceCLRewards.cfg, StartClip = TRUE); if a requirement of the incentive oracle is rejected, everything is validated again with the one rule the code is known to deviate by (TraceCLRewardsKnown.cfg; finding 'incentive:emits-for-time-before-start': the first accumulator update after a record's start time emits for the whole time since the previous update, never for time before the record was created): whatever is rejected under that rule too is a violation, otherwise the known deviation is reported as that finding. Non-vacuity: the run is undecided unless the histories contain incentives created after time passed without a liquidity update followed by a joiner, future starts, several records per denom with different starts, exhausted records, intervals without active liquidity, sub-second intervals, young positions forfeiting by collect / withdraw / add with and without other active liquidity, accruing twins and k-multiples. Every second history has a second pool in which every user holds a position outside the history, listed last in every MsgCollectIncentives (what happens to a position must not depend on what else a message lists); every fifth history runs with a governance-authorised spread factor of 0.5 .. 0.95 (the dust allowance is counted in units of 1 + floor(f/(1-f))).",
     "note": "Trusted: TLC, BigNum override, the curve walker (its laws are model-checked in C03), harness projection. Calibration of the incentive dust on the unchanged tree (seeds 1-5 quick: 4.1e5 judgements, one thorough run: 2.8e6): real never exceeded ideal; worst slack/dust 0.999 where whole-token truncation dominates (999 of 1000 paid), 0.73 (quick) / 0.96 (thorough) where the accumulator ulp dominates - the bound is the worst case of the code's truncations with no safety factor on top.",
 }
 BUILD = clc.BUILD
